@@ -6,7 +6,7 @@ from fractions import Fraction
 
 from ..core import AnalysisError
 from ..poly import P, _mentions
-from ..symex import Ev, find_atoms, call_name, seq_items, compare
+from ..symex import Ev, find_atoms, call_name, seq_items, compare, guard_holds
 from ..updates import updates_of, packed_roles, packed_index, range_loops
 from .c08 import inline_hook
 
@@ -532,7 +532,7 @@ def r07_6(chk, K):
                    fingerprint="neg", expected=str(S * conj), found=str(u.value))
             g = [(c.key(), pol) for c, pol in u.guards]
             chk.ob("R07.6", PYX, k.qual, "the mirrored entry is written only for m != 0",
-                   (compare("NotEq", m, P.const(0)).key(), True) in g, fingerprint="neg-guard", found=str(g))
+                   guard_holds(u.guards, compare("NotEq", m, P.const(0))), fingerprint="neg-guard", found=str(g))
         else:
             chk.ob("R07.6", PYX, k.qual, "store index is l(l+1) +- m", False, fingerprint=f"idx:{u.index[0]}", found=str(u.index[0]))
 
